@@ -176,3 +176,35 @@ func vc_C08_buffer_keeps_pairs() {
 		}
 	}
 }
+
+// Corner/value pairing of the uniform marching squares renderer on non-square
+// boxes: for an affine field linear interpolation is exact, so every endpoint of
+// every emitted segment must lie on the field's zero line (and inside the padded
+// box). Concrete fields and boxes (enumeration, not a symbolic proof).
+type vfAffine2 struct {
+	bb      sdf.Box2
+	a, b, c float64
+}
+
+func (l *vfAffine2) BoundingBox() sdf.Box2       { return l.bb }
+func (l *vfAffine2) Evaluate(p v2.Vec) float64 { return l.a*p.X + l.b*p.Y + l.c }
+
+func vc_C08_uniform_pairing() {
+	boxes := []v2.Vec{{X: 3, Y: 2}, {X: 2, Y: 3}, {X: 5, Y: 1}, {X: 2, Y: 2}}
+	sz := boxes[vfCase("box", len(boxes))]
+	cells := []int{3, 7, 10}[vfCase("cells", 3)]
+	f := &vfAffine2{bb: sdf.Box2{Min: v2.Vec{X: -1, Y: 0.5}, Max: v2.Vec{X: -1 + sz.X, Y: 0.5 + sz.Y}}, a: 1, b: 2, c: -3.3}
+	var got []*sdf.Line2
+	out, wait := vfCollectLines(&got)
+	NewMarchingSquaresUniform(cells).Render(f, sdf.NewLine2Buffer(out))
+	close(out)
+	wait()
+	vfReach("uniform squares rendered")
+	vfAssert(len(got) > 0, "the zero line of the test field crosses the box")
+	for _, ln := range got {
+		for _, e := range ln {
+			v := f.Evaluate(e)
+			vfAssert(v <= 1e-9 && v >= -1e-9, "every segment endpoint lies on the zero line of the (affine) field: corner values belong to their corners")
+		}
+	}
+}
